@@ -108,6 +108,13 @@ def eq(a, b):
         if type(a) != type(b) or len(a) != len(b):
             return False
         return land(*[eq(x, y) for x, y in zip(a, b)])
+    if (isinstance(a, SymVal) or isinstance(b, SymVal)) and a is not b:
+        # a symbolic wrapper that does not define equality: never silently "different"
+        if a is None or b is None:
+            for x in (a, b):
+                if hasattr(x, "sym_is_none"):
+                    return x.sym_is_none()
+        raise NotImplementedError(f"equality of {type(a).__name__} and {type(b).__name__} is not modelled")
     if is_sym(a) or is_sym(b):
         if a is None or b is None:
             return False
